@@ -25,8 +25,83 @@ EXPLANATION = (
     "substituting the increment.")
 
 
+def check_goal_definition_immutable(ctx, chk):
+    """the terminal test ranges over the scenario's sensitive hosts; what it ranges over must be the
+    same collection for the whole life of the environment: nothing in nasim/envs mutates a
+    container that is (an alias of) sensitive_addresses / sensitive_hosts - directly, or through
+    a parameter that a call site binds to it"""
+    import ast
+    from .rowprov import Prov
+    pr = ctx.__dict__.setdefault("_rule_cache", {}).get("rowprov")
+    if pr is None:
+        pr = ctx.__dict__["_rule_cache"]["rowprov"] = Prov(ctx.repo)
+    MUT = {"pop", "popitem", "remove", "clear", "append", "extend", "insert", "sort", "reverse",
+           "update", "setdefault", "add", "discard"}
+    GOALSETS = {"sensitive_addresses", "sensitive_hosts"}
+
+    def alias_roots(fi, expr, depth, seen=None):
+        seen = set() if seen is None else seen
+        if isinstance(expr, ast.Attribute):
+            return {expr.attr}
+        if not isinstance(expr, ast.Name) or (fi.qualname, expr.id) in seen:
+            return set()
+        seen.add((fi.qualname, expr.id))
+        out = set()
+        for n in ast.walk(fi.node):
+            if isinstance(n, ast.Assign) and any(isinstance(t, ast.Name) and t.id == expr.id
+                                                 for t in n.targets):
+                out |= alias_roots(fi, n.value, depth, seen)
+        params = [a.arg for a in fi.node.args.posonlyargs + fi.node.args.args]
+        if expr.id in params and depth > 0:
+            k = params.index(expr.id)
+            for cf, call in pr.calls_of.get(fi.name, []):
+                off = 1 if (params and params[0] in ("self", "cls")
+                            and isinstance(call.func, ast.Attribute)) else 0
+                arg = None
+                if 0 <= k - off < len(call.args) \
+                        and not any(isinstance(x, ast.Starred) for x in call.args):
+                    arg = call.args[k - off]
+                for kw in call.keywords:
+                    if kw.arg == expr.id:
+                        arg = kw.value
+                if arg is not None:
+                    out |= alias_roots(cf, arg, depth - 1, seen)
+        return out
+
+    n = 0
+    for fi in ctx.repo.all_functions():
+        if not fi.module.name.startswith("nasim.envs") or fi.name == "__init__":
+            continue
+        for node in ast.walk(fi.node):
+            recv = None
+            if isinstance(node, ast.Call) and isinstance(node.func, ast.Attribute) \
+                    and node.func.attr in MUT:
+                recv = node.func.value
+            elif isinstance(node, (ast.Assign, ast.AugAssign, ast.Delete)):
+                ts = node.targets if isinstance(node, (ast.Assign, ast.Delete)) else [node.target]
+                for t in ts:
+                    if isinstance(t, ast.Subscript):
+                        recv = t.value
+            if recv is None or not isinstance(recv, (ast.Name, ast.Attribute)):
+                continue
+            n += 1
+            # only the container itself (not what it is computed from): follow whole-value aliases
+            # (`x = y`, `x = self.a.b`, a parameter bound at a call site), never contents
+            hit = bool(GOALSETS & alias_roots(fi, recv, 3))
+            if hit:
+                chk.ob("C06.goal-set", f"{fi.qualname}: the collection of sensitive hosts the goal "
+                       "test ranges over is never modified after construction", False,
+                       f"`{ast.unparse(node)[:80]}` modifies a container that is (an alias of) the "
+                       "environment's sensitive_addresses / sensitive_hosts: afterwards the terminal "
+                       "test ranges over a different set of hosts",
+                       f"{fi.module.path}:{node.lineno}", firm=True)
+    chk.ob("C06.goal-set", "no function of nasim/envs modifies the collection of sensitive hosts",
+           True, f"{n} mutation site(s) examined", "nasim/envs", nontrivial=False)
+
+
 def run(ctx, chk):
     chk.explanation = EXPLANATION
+    check_goal_definition_immutable(ctx, chk)
     lv = access_levels(ctx)
     r = envfacts.gstep_shallow(ctx)
     cn = r.cn
